@@ -11,14 +11,19 @@ import KmipModel.Stream
 namespace Kmip.Stk
 open Kmip Kmip.Io
 
+/-- the stacks a Decoder can sit on: its own bufio.Reader, or - when the caller handed NewDecoder an io.ByteScanner - the bare source -/
 def IsBuf : Stack → Prop
   | .buf _ _ _ _ => True
-  | _ => False
+  | .src _ => True
+  | .lim _ _ => False
 
 theorem isBuf_reach {s s' : Stack} (hb : IsBuf s) (hi : s.Inv) (hr : Reach s s') : IsBuf s' := by
   match s, hb, hi with
   | .buf i sz p e, _, hi =>
     obtain ⟨i', p', e', rfl, _⟩ := reach_buf hi.2.1 hr
+    trivial
+  | .src s0, _, _ =>
+    obtain ⟨s1, rfl⟩ := reach_src hr
     trivial
 
 /-- the flat decoder state `d` and the stack decoder state `x` show the same bytes, end the same way, hold the same lookahead tag -/
@@ -96,6 +101,21 @@ theorem sim_readByte (d : Dec) (x : SDec) (h : Sim d x) :
       obtain ⟨s', e1, e2, e3, e4⟩ := g2 c rest this
       rw [e1]
       have hr : Reach (Stack.buf i sz p e) s' := Reach.byte (Reach.refl _) e1
+      refine ⟨rfl, ⟨by simp [e3], by simp [hf, hx, e4], e2, ?_, hl⟩, hr⟩
+      exact isBuf_reach (by trivial) hi' hr
+  | .src s0, _, hi' =>
+    obtain ⟨g1, g2⟩ := srcReadByte_flat s0 hi'
+    cases hc : d.win with
+    | nil =>
+      have : (Stack.src s0).content = [] := by rw [← hx, ← hw, hc]
+      rw [g1 this]
+      simp only [RelW]
+      rw [← hx, ← hf]
+    | cons c rest =>
+      have : (Stack.src s0).content = c :: rest := by rw [← hx, ← hw, hc]
+      obtain ⟨s', e1, e2, e3, e4⟩ := g2 c rest this
+      rw [e1]
+      have hr : Reach (Stack.src s0) s' := Reach.byte (Reach.refl _) e1
       refine ⟨rfl, ⟨by simp [e3], by simp [hf, hx, e4], e2, ?_, hl⟩, hr⟩
       exact isBuf_reach (by trivial) hi' hr
 
